@@ -350,7 +350,11 @@ def stretch_case(case):
             st_, r = guard(g, *fitting(list(g.parameters)), what="parent gate call")
             if st_ == "err":
                 raise Violation("fitting-call-rejected", f"parent {name}: {r}", where="parent")
-    st_, sg = guard(stretched_gates, dict(base), suffix=suffix, what="stretched_gates")
+    # the documentation says the KEYS of the dictionary are ignored (names come from the gates)
+    keyed = dict(base)
+    if case.get("odd_keys"):
+        keyed = {("k%d_" % i) + k.lower(): v for i, (k, v) in enumerate(base.items())}
+    st_, sg = guard(stretched_gates, keyed, suffix=suffix, what="stretched_gates")
     if st_ == "err":
         raise Violation("stretched-gates-raised", f"{sg}\nnames {names}")
     arities = set()
@@ -404,6 +408,8 @@ def stretch_case(case):
                 raise Violation("stretched-gate-missing", f"parent of idle gate {name}: {par}{suffix} not in {list(sg)}")
             idle_s = sg.get(name + suffix)
             want_params = list(g.parameters)
+            if idle_s is not None and (idle_s.ideal_unitary is not None or not isinstance(idle_s, IdleGateDefinition)):
+                raise Violation("stretched-idle", f"{name}{suffix} is not an idle gate any more: {type(idle_s).__name__}, ideal_unitary {idle_s.ideal_unitary!r}")
             if idle_s is None or list(idle_s.used_qubits) != [] or len(list(idle_s.parameters)) != len(want_params) + 1 or not all(a == b for a, b in zip(want_params, idle_s.parameters)):
                 raise Violation("stretched-idle", f"{name}{suffix}: {idle_s} (parent idle gate: {want_params}; gate order {list(base)})")
     nt = len(arities) >= 2 and len(base) >= 2
@@ -420,6 +426,7 @@ def _stretch_gen(ch):
         "order": ch.pick(["as-built", "active-then-idle", "idle-then-active", "reversed"]),
         "arg_seed": ch.int(0, 10**6),
         "call_parents_first": ch.bool(),
+        "odd_keys": ch.int(0, 2) == 0,
     }
 
 
